@@ -151,6 +151,10 @@ func (e *Engine) callValue(s *State, fr *Frame, dst *ssa.Call, cc *ssa.CallCommo
 	fr.callCnt[calleeName]++
 	anchor := fmt.Sprintf("%s#%d", calleeName, e.callOrdinal(site))
 	e.applyAts(s, fr, anchor, "before", cc, args, nil, site)
+	if s.dead {
+		// "at callee#n before stop": the call itself is already outside the clauses under proof
+		return nil, true
+	}
 
 	setResult := func(v Value) {
 		if dst != nil {
@@ -247,6 +251,12 @@ func calleeShortName(cc *ssa.CallCommon) string {
 		return f.Name()
 	case *ssa.MakeClosure:
 		return f.Fn.Name()
+	case *ssa.UnOp:
+		// a function value loaded from a captured variable, parameter cell or local: the variable's name
+		// (an SSA register name would change with every edit of the function)
+		if n := loadedVarName(f); n != "" {
+			return n
+		}
 	}
 	return cc.Value.Name()
 }
@@ -260,6 +270,10 @@ func (e *Engine) callFunction(s *State, fr *Frame, dst *ssa.Call, f *ssa.Functio
 		e.applyAts(s, fr, anchor, "after", cc, args, v, site)
 	}
 	// built-in models first
+	if v, handled := e.modelOps(s, fr, dst, key, f, args, site); handled {
+		setResult(v)
+		return nil, false
+	}
 	if v, succ, handled, done := e.modelBufio(s, fr, dst, key, f, args, site); handled {
 		if done {
 			return succ, true
@@ -279,7 +293,7 @@ func (e *Engine) callFunction(s *State, fr *Frame, dst *ssa.Call, f *ssa.Functio
 		return nil, false
 	}
 	c := e.cs.Funcs[key]
-	if c != nil && c.Flags["inline"] == "" && (len(c.Ensures) > 0 || len(c.Requires) > 0 || c.Flags["modular"] != "" || c.Flags["trusted"] != "" || f.Blocks == nil) {
+	if c != nil && c.Flags["inline"] == "" && (len(c.Ensures) > 0 || len(c.Requires) > 0 || len(c.RepInv) > 0 || c.Flags["modular"] != "" || c.Flags["trusted"] != "" || f.Blocks == nil) {
 		rv := e.modularCall(s, fr, c, key, f.Signature, args, site, anchor, f)
 		setResult(rv)
 		return nil, false
@@ -291,6 +305,11 @@ func (e *Engine) callFunction(s *State, fr *Frame, dst *ssa.Call, f *ssa.Functio
 	}
 	if !isFirstParty(f) && !e.inlineOK(f) {
 		rv := e.unknownCall(s, fr, key, f.Signature, e.isPureExtern(f), site)
+		setResult(rv)
+		return nil, false
+	}
+	if e.atHavoc(fr, anchor) {
+		rv := e.modularCall(s, fr, havocContract(key), key, f.Signature, args, site, anchor, f)
 		setResult(rv)
 		return nil, false
 	}
@@ -408,7 +427,7 @@ func (e *Engine) modularCall(s *State, fr *Frame, c *FuncContract, key string, s
 		if i >= len(args) {
 			break
 		}
-		if pv, ok := args[i].(*Ptr); ok && pv.Kind == pkObj && !c.Nullable[n] && f != nil {
+		if pv, ok := args[i].(*Ptr); ok && pv.Kind == pkObj && !c.Nullable[n] && f != nil && c.Flags["site_havoc"] == "" {
 			if v, ok := litValue(pv.Ref); ok && v.Sign() != 0 {
 				continue
 			}
@@ -431,6 +450,7 @@ func (e *Engine) modularCall(s *State, fr *Frame, c *FuncContract, key string, s
 		s.addObligation("requires", name, r.Tag, site.Pos(), t, r.Src)
 		s.assume(t)
 	}
+	e.repInvAtCall(s, fr, c, key, env, site, anchor, f)
 	old := s.snapshot()
 	// havoc
 	w := newWriteSet()
